@@ -235,6 +235,10 @@ def run(ck):
     finders = [p.find_function("sv.molecule_indels", "look_for_indels_in_breakage"),
                p.find_function("sv.segment_indels", "look_for_indels_in_breakage")]
 
+    ck.clause("C20.7", "the finders turn label numbers into coordinates by positions[siteId - 1]: the maps must hold every label of the "
+                       "file - nothing dropped, repeated or merged while reading (as C17.9)")
+    from .c17 import frame_integrity
+    frame_integrity(ck, "C20.7", modules=("src.parsers.cmap_reader", "src.parsers.bionano_file_reader", "sv.read_files"))
     ck.clause("C20.6", "label look-ups of the finders keep no state: nothing at module level is written while calls are produced "
                        "(a cache shared by reference and query maps answers one with the other's position)")
     from ..report import RuleView
